@@ -416,7 +416,7 @@ FN_PROPS = {
 def fn_tlc(mode, tier, out, obs, name, timeout=1800):
     env = {"FN_MODE": mode, "FN_TIER": tier, "FN_OUT": out, "FN_OBS": obs}
     rc, o, wall = vlib.tlc(name, "MC_Fn.cfg", "MC_Fn.tla", os.path.join(SPECS, "mc"), workers=1, timeout=timeout, env=env,
-                           java_opts="-Xmx12g -Xss1g")
+                           java_opts="-Xmx12g -Xss1g", extra=["-maxSetSize", "40000000"])
     if "Model checking completed. No error has been found" not in o:
         raise ToolError("MC_Fn (%s) failed:\n%s" % (mode, o[-3000:]))
     return o, wall
